@@ -5,6 +5,8 @@
 From Coq Require Import List NArith Bool.
 From MV Require Import Lib.Bytes Lib.Dec Lib.Seg Gen.ProtoConsts Gen.CodecSrc Model.HeaderKV Model.Bolt Model.Xcodecs
   Proofs.HeaderKV Proofs.Bolt Proofs.Xcodecs.
+(* the comparison functions used by the correspondence shards: imported so that they are rebuilt with this file *)
+From MV Require Model.BoltCheck Model.XCheck.
 Import ListNotations.
 Open Scope N_scope.
 
